@@ -271,6 +271,7 @@ var analysisVocab = map[string][]string{
 	"elision": {"l'avion", "l’avion", "d’été", "d'été", "qu’il", "jusqu’à", "lorsqu’on", "puisqu’elle", "c’est", "j’ai", "n’est", "m’a", "t’es", "s’il",
 		"dell’Italia", "un’altra", "all’ora", "nell’acqua", "sull’isola", "dall’alto", "gl’italiani", "l’Hospitalet", "d’Història", "s’ha", "n’hi",
 		"b’fhearr", "d’fhág", "m’athair", "b'fhearr", "m'athair", "L’Avion", "l’", "’l", "l’’a", "l’l’a", "x’y", "été", "avion"},
+	"possessive": {"dog's", "dogs’", "John's", "JOHN'S", "it’s", "she＇s", "x＇S", "'s", "’s", "s", "S", "ss", "'", "s's", "boss's", "a's's", "é's", "\xff's", "\xe2\x80s", "’\x99s", "cats", "is", "O'Neil's"},
 	"special": {"Kelvin", "ȺȾ", "ǅ", "ẞ", "ﬁnance", "ǆ", "İi", "ΐ", "ß", "Ω", "ⅷ", "é", "é", "ö̈", "à́b", "́", "‌", "‍",
 		"\ufeff", " ", " ", "\u0085", "�", "x�y", "\U0001F600", "🇩🇪", "👍🏽", "\u0000", "a\u0000b", "\t", "\r\n"},
 }
@@ -960,7 +961,7 @@ func (e *analysisEngine) stream(lang string) (in analysisInput, text []byte, tok
 		tk = tokenizer.NewRegexpTokenizer(regexp.MustCompile(`\S+`))
 	}
 	toks = tk.Tokenize(text)
-	switch e.rng.Intn(8) {
+	switch e.rng.Intn(10) {
 	case 0: // gaps
 		toks = token.NewLengthFilter(2, 6).Filter(toks)
 	case 1:
@@ -975,6 +976,10 @@ func (e *analysisEngine) stream(lang string) (in analysisInput, text []byte, tok
 			}
 		}
 		toks = token.NewStopTokensFilter(m).Filter(toks)
+	case 4: // terms rewritten to more runes / bytes than their source span
+		toks = token.NewUnicodeNormalizeFilter(norm.NFKD).Filter(toks)
+	case 5: // lower case of Ⱥ/Ⱦ is wider; invalid bytes re-encoded as U+FFFD by the n-gram filter
+		toks = token.NewEdgeNgramFilter(token.BACK, 2, 6).Filter(token.NewLowerCaseFilter().Filter(toks))
 	}
 	return in, text, toks
 }
@@ -1095,6 +1100,21 @@ func analysisLowerTable(ts []analysisTokSnap) string {
 			seen[r] = true
 			if l := unicode.ToLower(r); l != r {
 				it = append(it, cq.Pair(cq.I(int(r)), cq.I(int(l))))
+			}
+		}
+	})
+	return cq.List(it)
+}
+
+// analysisRuneSet lists the runes present in the terms for which f holds
+func analysisRuneSet(ts []analysisTokSnap, f func(rune) bool) string {
+	seen := map[rune]bool{}
+	var it []string
+	analysisTermRunes(ts, func(r rune) {
+		if !seen[r] {
+			seen[r] = true
+			if f(r) {
+				it = append(it, cq.I(int(r)))
 			}
 		}
 	})
@@ -1295,6 +1315,50 @@ func (e *analysisEngine) exactFilters(per int) {
 			}, false, true
 		}},
 	}
+	type exF = func([]analysisTokSnap, []analysisTokSnap, bool) string
+	exacts = append(exacts,
+		analysisExact{"camelcase", "en", func(rng *rand.Rand, tin []analysisTokSnap) (analysis.TokenFilter, exF, bool, bool) {
+			return token.NewCamelCaseFilter(), func(i, o []analysisTokSnap, _ bool) string {
+				return fmt.Sprintf("CCamel true %s %s %s %s %s", analysisRuneSet(i, unicode.IsLower), analysisRuneSet(i, unicode.IsUpper), analysisRuneSet(i, unicode.IsNumber), analysisCoqStream(i), analysisCoqStream(o))
+			}, false, false
+		}},
+		analysisExact{"dictcompound", "de", func(rng *rand.Rand, tin []analysisTokSnap) (analysis.TokenFilter, exF, bool, bool) {
+			words := append([]string{}, analysisCompoundDict...)
+			for _, t := range tin { // sub-words drawn from the stream itself
+				rs := bytes.Runes(t.Term)
+				if len(rs) >= 2 && rng.Intn(2) == 0 {
+					a := rng.Intn(len(rs))
+					b := a + 1 + rng.Intn(len(rs)-a)
+					words = append(words, string(rs[a:b]))
+				}
+			}
+			mw, ms, xs, longest := rng.Intn(6), rng.Intn(4), 1+rng.Intn(15), rng.Intn(2) == 0
+			f := token.NewDictionaryCompoundFilter(analysisTokenMapOf(words...), mw, ms, xs, longest)
+			dict := make([][]byte, len(words))
+			for k, w := range words {
+				dict[k] = []byte(w)
+			}
+			return f, func(i, o []analysisTokSnap, p bool) string {
+				return fmt.Sprintf("CDict true %s %d %d %d %s %s %s", analysisBytesList(dict), mw, ms, xs, cq.B(longest), analysisCoqStream(i), analysisCoqOptStream(o, p))
+			}, false, false
+		}},
+		analysisExact{"cjkbigram", "cjk", func(rng *rand.Rand, tin []analysisTokSnap) (analysis.TokenFilter, exF, bool, bool) {
+			uni := rng.Intn(2) == 0
+			return cjk.NewBigramFilter(uni), func(i, o []analysisTokSnap, _ bool) string {
+				return fmt.Sprintf("CBigram true %s %s %s", cq.B(uni), analysisCoqStream(i), analysisCoqStream(o))
+			}, false, false
+		}},
+		analysisExact{"cjkwidth", "cjk", func(rng *rand.Rand, tin []analysisTokSnap) (analysis.TokenFilter, exF, bool, bool) {
+			return cjk.NewWidthFilter(), func(i, o []analysisTokSnap, p bool) string {
+				return fmt.Sprintf("CWidth %s %s", analysisCoqStream(i), analysisCoqOptStream(o, p))
+			}, false, false
+		}},
+		analysisExact{"possessive", "possessive", func(rng *rand.Rand, tin []analysisTokSnap) (analysis.TokenFilter, exF, bool, bool) {
+			return en.NewPossessiveFilter(), func(i, o []analysisTokSnap, _ bool) string {
+				return fmt.Sprintf("CPossessive %s %s", analysisCoqStream(i), analysisCoqStream(o))
+			}, false, false
+		}},
+	)
 	for _, ex := range exacts {
 		for k := 0; k < per; k++ {
 			in, text, tin, ok := e.safeStream(ex.lang)
